@@ -71,6 +71,8 @@ pub enum Fault {
     WrongAad(B),
     /// replace ct||tag altogether
     Garbage(B),
+    /// overwrite one byte of a field: index >= 0 from the start, < 0 from the end (-1 = last byte)
+    ByteSet(Field, i32, u8),
     /// detached tag made longer by these bytes (for the allocating forms: same as Extend)
     TagExtend(B),
 }
